@@ -297,3 +297,81 @@ def decide_lookup(value, q, knots_p, table, label, n, qlabel=None, outside='clam
         else:
             out.append((name, None, 'not decided: %s' % alg.show(got, 200)))
     return out
+
+
+def guard_verdict(pre, qname, knots_p, label, n=3, outside=False):
+    """A refusal guarded by a test on the requested values, tried on requests the look-up has to serve: every requested value on the same tabulated knot,
+    two consecutive requests in decreasing order, in increasing order (all inside the table).  ``pre`` is the precondition (what has to hold for the
+    call to go on).  -> ('refuses', witness) when the precondition fails on one of them, ('accepts', None) when it holds on all, (None, why) otherwise.
+    The knots are taken to be positive (radii, wavelengths)."""
+    names = sorted({str(a[1]) for a in _all_atoms(pre) if a[0] == 'sym' and str(a[1]).split('@')[0] == qname})
+    if not names:
+        return None, 'the test does not read the request'
+    pts = [knot(knots_p, label, j) for j in range(n)]
+    zero_facts = OrderFacts([Poly()] + pts, [0] + [2 * j + 1 for j in range(n)]).val
+    later = [x for x in names if '@+' in x]
+    mid = pts[min(1, n - 1)]
+    witnesses = [('every request on the same tabulated value', {x: mid for x in names})]
+    if later and n >= 2:
+        witnesses.append(('two consecutive requests in decreasing order (both tabulated values)', {x: (pts[0] if x in later else pts[1]) for x in names}))
+        witnesses.append(('two consecutive requests in increasing order (both tabulated values)', {x: (pts[1] if x in later else pts[0]) for x in names}))
+    extra_facts = {}
+    if outside:
+        # (a table that serves every request: also one below and one above everything it tabulates, positive all the same)
+        qw = alg.sym('request#w')
+        for what, rank in (('every request below the tabulated value', 0.5), ('every request above the tabulated value', 2 * n + 1)):
+            witnesses.append((what, {x: qw for x in names}))
+            extra_facts[what] = OrderFacts([Poly(), qw] + pts, [0, rank] + [2 * j + 1 for j in range(n)]).val
+    undecided = None
+    for what, assign in witnesses:
+        Rg = Region(None, knots_p, label, n, requests=[(pts[0], 'at', 0)])          # only the ordering of the knots
+        Rg.substs = []
+        Rg.val.update(zero_facts)
+        Rg.val.update(extra_facts.get(what, {}))
+
+        def f(a, assign=assign, Rg=Rg):
+            if a[0] == 'sym' and str(a[1]) in assign:
+                return assign[str(a[1])]
+            if a[0] == 'fn' and a[1] in ('any', 'all') and len(a) == 3 and a[2][0] == 'B' and Poly.from_key(a[2][2]).is_const():
+                return Poly.from_key(a[2][2])
+            return Rg._f(a)
+        try:
+            r = rebuild(pre, f)
+            for _ in range(3):          # (not any(x) is kept as all(not x): a constant body shows after the first pass)
+                r2 = rebuild(r, f)
+                if r2 == r:
+                    break
+                r = r2
+        except (RecursionError, ZeroDivisionError):
+            undecided = 'not simplified'
+            continue
+        if r == Poly():
+            return 'refuses', what
+        if not (r == num(1)):
+            undecided = 'not decided for %s: %s' % (what, alg.show(r, 100))
+    if undecided:
+        return None, undecided
+    return 'accepts', None
+
+
+def _all_atoms(p, out=None):
+    out = [] if out is None else out
+    for a in p.atoms():
+        _walk_atom(a, out)
+    return out
+
+
+def _walk_atom(a, out):
+    out.append(a)
+    if a[0] == 'sum':
+        _all_atoms(Poly.from_key(a[2]), out)
+    elif a[0] == 'pow':
+        _all_atoms(Poly.from_key(a[1]), out)
+    elif a[0] == 'ind':
+        _all_atoms(Poly.from_key(a[2]), out)
+    elif a[0] == 'fn':
+        for x in a[2:]:
+            if x[0] == 'P':
+                _all_atoms(Poly.from_key(x[1]), out)
+            elif x[0] == 'B':
+                _all_atoms(Poly.from_key(x[2]), out)
